@@ -13,13 +13,16 @@ META = dict(
     technique="Coq theorems (structural induction over the row list, Permutation) on a line-by-line model of the dataframe readers, "
               "IndividualData.add_observations, Dataset tensor construction and Dataset.to_pandas; the model is executed inside Coq "
               "(vm_compute, exact rationals, executable float64/float32 rounding) on the same generated tables as the implementation "
-              "and every output tensor / counter / error class is compared there",
+              "and every output tensor / counter / error class is compared there; the decision logic of the four dataframe readers (ordered "
+              "checks with their operators, constants, quantifiers, aggregates, exception classes) is regenerated from the source by a "
+              "fail-closed python-ast translator and proved in Coq to be the table the model implements (interpreter of the table = model)",
     level_text="Unbounded theorems (every table, every row permutation, every missing pattern, every layout): ages strictly sorted, "
                "ages/values/mask aligned, mask = real visit and value present, visit and observation counts, individuals in order of first "
                "appearance, row-order invariance (per individual always; whole dataset when first appearances keep their order), every "
                "malformation class of the property text is refused with a data-input error, partial round trip; the full round trip is "
                "refuted twice on the faithful model (order by ID, float32 age collision) and both witnesses replay on the code.",
-    level_note="Trusted: Coq kernel (no axiom: all theorems closed under the global context); pandas semantics as modelled "
+    level_note="Trusted: Coq kernel (no axiom: all theorems closed under the global context); the translator harness/translate/c14_readers.py "
+               "(expected statement skeletons, statements declared without counterpart in the model); pandas semantics as modelled "
                "(groupby(sort=False) order, join, round, duplicated, infer_dtype), numpy/torch float casts (re-executed in Coq by Io/F32.v "
                "and compared exactly), the harness encoding of a generated table both as DataFrame and as Coq literal. Not covered: CSV "
                "parsing, cofactors, column labels other than the covariate names, float64 ties of round(x*1e6).",
@@ -1081,7 +1084,9 @@ def main(run: Run):
         "harness/props/c14.py: encoding of a generated table as DataFrame and as Coq literal; float -> exact rational (as_integer_ratio)",
         "Io/F32.v executable float64/float32 round-to-nearest-even (validated by exact comparison with numpy/torch on every case)",
     ]
-    run.explanation = ("Theorems in Coq over all tables / permutations on a model mirroring the readers line by line; the model is run inside Coq on "
+    run.explanation = ("T1: the ordered decision table of the four dataframe readers is regenerated from the source (coq/gen/GenC14.v) and proved equal to "
+                       "the table whose generic interpretation is proved equal to the hand-written model (Io/IngestSrc*.v). "
+                       "Theorems in Coq over all tables / permutations on a model mirroring the readers line by line; the model is run inside Coq on "
                        "the generated tables and compared field by field with Data.from_dataframe + Dataset; implementation-side oracles: "
                        "from-scratch recomputation of the promised tensors, row-permutation metamorphic test, to_pandas round trip, caller's table untouched.")
     try:
